@@ -29,6 +29,17 @@ UNITS = {
   'hw': unit({'vp_thr_s0': [''], 'vp_thr_co': ['a'], 'vp_thr_res': [''], 'vp_thr_w': ['']}),
   'hr': unit({'vp_thr_s0r': [''], 'vp_thr_co': ['a'], 'vp_thr_res': [''], 'vp_thr_w': ['']}, recall=True),
 }
+# wake-up unit (w_wake.cpp = task.cpp + arena.cpp): idle wait of the suspended task's own thread vs publication of the resume task
+CUT_WAKE = ['18local_wait_for_allI', '16execute_and_wait', '27get_thread_reference_vertex',
+            '8try_pushEPN', '7try_popEj', '12pop_specific', '13look_specific',   # task_stream lane (mutex + std::deque) -> one-step stubs that keep the real population-bit operations
+            '21stealing_loop_backoff5pauseEv',       # ~100 pauses/yields before the thread considers sleeping: stub = "expired" (one poll)
+            'timed_spin_wait_until',                 # bounded spin in concurrent_monitor_mutex::lock = one poll (as C02)
+            '17on_thread_leaving',                   # counting stub (arena life-cycle: C16)
+            '16create_coroutineERNS1_14coroutine_type', '17current_coroutine', '18init_suspend_point', '32internal_task_dispatcher_cleanup',
+            '11resume_node6notifyEv', '12recall_pointEv']
+UNITS['wk'] = dict(wrapper='w_wake.cpp', mode='lcs', unroll=1, cxxflags=CXX, exceptions=True, prune=True, cut=CUT_WAKE,
+                   devirt=['sleep_node', '11resume_node6notifyEv'], pure=['27get_waiting_threads_monitor'],
+                   threads={'vp_thr_idle': [''], 'vp_thr_res': ['']})
 COMMON = dict(harness='h_susp.c', timeout=900, native_cflags=['-fno-sanitize=null,pointer-overflow'])
 WORLD = ('World: 1 arena, OS threads T (slot 0, default dispatcher D0 = stack 0) and W (slot 1, Dw = stack 2), one coroutine dispatcher D1 (stack 1) '
          'built as create_coroutine does and parked in the arena\'s real co-cache. Model threads are stacks; the only stub on the switch path is '
@@ -43,6 +54,17 @@ def bnd(**kw):
     b = {'os_threads': 2, 'suspend_points': 3, 'suspensions_of_the_task': 1, 'free_rounds': 1, 'forced_rounds': '1 settle + 1 probe', 'spin_unroll': 1, 'memory_model': 'SC'}
     b.update(kw); return b
 HARNESSES = [
+  dict(name='wakeup', unit='wk', harness='h_wake.c', defines={'ROUNDS': 1, 'SETTLE': 1}, scenarios=[{'PRESET': 0}, {'PRESET': 1}], timeout=3600, tiers=['thorough'],
+       cbmc=['--unwind', '16', '--object-bits', '12'], native_cflags=['-fno-sanitize=null,pointer-overflow'],
+       desc='Idle wait of the suspended task\'s own thread vs publication of its resume task in an arena of size 1 (one slot, no workers: only T can take the task). '
+            'T = idle-loop body of receive_or_steal_task<coroutine_waiter> (self-recall poll, scan of the resume stream via stream.empty()/arena::get_stream_task/task_stream::pop, '
+            'else the real coroutine_waiter::pause: arena::out_of_work [atomic_flag::try_clear_if(!has_tasks())], sleep_waiter::sleep -> concurrent_monitor::wait(pred = !is_empty() || owner recalled): '
+            'prepare_wait, predicate, commit_wait -> sleep_node -> binary_semaphore::P -> futex) || R = the real r1::resume(sp): try_notify_resume, arena reference, task_stream::push, '
+            'advertise_new_work<wakeup> (fence, atomic_flag::test_and_set, request_workers -> monitor notify(arena) -> semaphore V -> futex wake). Pre-state: the switch is complete '
+            '(sp0 suspended, T on its coroutine); PRESET: pool-state flag initially SET / UNSET. Oracle: blocked-state oracle (T asleep or parked with the task published and R done = lost wake-up); '
+            'T leaves the loop with exactly the resume task, once; stream, wait set and kernel sleep set empty, references balanced; witnesses: T really slept and was woken / never slept.',
+       bounds={'model_threads': 2, 'free_rounds': 1, 'forced_rounds': '1 settle + 1 probe', 'unroll': 1, 'lanes': 2, 'memory_model': 'SC',
+               'cut': 'back-off (stealing_loop_backoff::pause = expired at once), timed_spin_wait_until = one poll, task_stream lane (mutex+deque) = one-step push/pop around the real population-bit update'}),
   dict(name='handshake', unit='hs', defines={'ROUNDS': 1, 'SETTLE': 1},
        scenarios=[{'MODE': 0}, {'MODE': 1}, {'MODE': 0, 'CRIT': 1}],
        desc='Real task_dispatcher::suspend (callback, internal_suspend, create_coroutine(thread_data&), resume, suspend_point_type::resume, co_context::resume) on stack 0 '
@@ -85,7 +107,7 @@ MANIFEST = dict(
 )
 OUTSIDE = [
   'the coroutine switch itself (swapcontext/makecontext, stack memory, guard pages) and the thread-based coroutine emulation (__TBB_RESUMABLE_TASKS_USE_THREADS, Windows fibers)',
-  'the dispatch loop (local_wait_for_all / receive_or_steal_task): replaced by a contract stub, so "the suspending thread keeps executing other work" and "the enclosing wait does not complete while a covered task is suspended" are not checked',
+  'the dispatch loop (local_wait_for_all / receive_or_steal_task) as a whole: a contract stub in the switch harnesses; only its idle-wait hand-shake (scan of the resume stream / coroutine_waiter::pause / monitor sleep vs push + advertise_new_work<wakeup>) is encoded separately (`wakeup`, thorough, arena of size 1, owner-recall wake-up tag and self-recall not exercised there); "the suspending thread keeps executing other work" and "the enclosing wait does not complete while a covered task is suspended" are not checked',
   'resume_task::execute under an external waiter (wait_ctx != null): resume_node double-notify hand-shake through the waiting-threads monitor (post_resume_action::register_waiter)',
   'nested suspension (a task running on a coroutine suspends while another suspension of the same thread is outstanding), more than one coroutine, cache overflow / coroutine destruction, coroutine creation inside the run (cache empty)',
   'more than 2 OS threads + 1 resumer, more than 2 suspensions, schedules needing more free rounds than stated; deeper than one level of recall_point recursion',
@@ -94,6 +116,7 @@ OUTSIDE = [
   'user errors: resume called twice for one suspend point, or never',
 ]
 STUBS = [
+  'wakeup unit: futex(2) kernel contract (futex_stub.h, copied from C02); task_stream::try_push/try_pop = one-step lane operations around the real population-bit updates; stealing_loop_backoff::pause = true (back-off expired); timed_spin_wait_until = one poll; threading_control::adjust_demand accumulates; get_waiting_threads_monitor returns the real monitor object',
   'swapcontext(from,to): saves the calling stack and parks it, marks the target runnable; asserts the target is not executing (the only stub on the switch path)',
   'r1::create_coroutine(coroutine_type&, size, arg) [mmap+makecontext]: records the entry argument; coroutine starts in co_local_wait_for_all(arg) when first switched to; current_coroutine [getcontext]: no-op',
   'task_dispatcher::local_wait_for_all<coroutine_waiter>: returns only with a resume task: the self-recall task (real get_self_recall_task) or one taken from the resume stream (each published task once); parks otherwise',
